@@ -31,71 +31,7 @@ func init() {
 }
 
 func runC01(c *eng.Ctx) {
-	bidi := c.MustFunc("R1", corePkg, "reconciler.handleDisagreementBidirectional")
-	if bidi == nil {
-		return
-	}
-	twoWaySafe := modeAtom(c, "TwoWaySafe")
-	sites := distinctEmitSites(bidi)
-	hps := handlerPaths(c, "R1", bidi)
-	nAlpha, nBeta := 0, 0
-	for _, hp := range hps {
-		for _, e := range hp.emits {
-			var side, other string
-			switch e.list {
-			case "alphaChanges":
-				side, other = rAlpha, rBeta
-				nAlpha++
-			case "betaChanges":
-				side, other = rBeta, rAlpha
-				nBeta++
-			default:
-				continue
-			}
-			key := emitKey(bidi, sites[e.store], e)
-			d := sideDiff(side)
-			unmodified := lenZeroAtom(hp.path, d, true)
-			deletionOnly := lenZeroAtom(hp.path, rND(d), true)
-			modeEscape := side == rBeta && pathAtomEq(hp.path, twoWaySafe, false)
-			c.Check("R1", key, e.store.Pos(), unmodified || deletionOnly || modeEscape,
-				"a change that overwrites "+sideName(side)+" is planned only if "+sideName(side)+" is unmodified or deletion-only since the ancestor (or, for beta, the mode is not two-way-safe)",
-				"path facts: "+atomsOf(hp.path))
-			// R2: the literal.
-			if e.fields == nil {
-				c.Check("R2", key, e.store.Pos(), false, "the planned change is a literal that can be inspected")
-				continue
-			}
-			pathOK := e.fields["Path"] != nil && eng.Render(e.fields["Path"]) == "p1"
-			newR := "nil"
-			if e.fields["New"] != nil {
-				newR = eng.Render(e.fields["New"])
-			}
-			newOK := newR == rSyn(other)
-			if newR == "nil" {
-				// propagating a deletion: the other side's synchronizable content is nil on this path.
-				newOK = pathAtomEq(hp.path, "("+rSyn(other)+" == nil)", true)
-				// Both sides deletion-only: one side is nil and the other a pure
-				// subtree of the ancestor (the handler's documented invariant), so
-				// on the branch where this side is non-nil the other is nil.
-				if !newOK && lenZeroAtom(hp.path, rND(sideDiff(side)), true) && lenZeroAtom(hp.path, rND(sideDiff(other)), true) &&
-					pathAtomEq(hp.path, "("+rSyn(other)+" == nil)", false) == false && pathAtomEq(hp.path, "("+rSyn(side)+" == nil)", false) {
-					newOK = true
-				}
-			}
-			c.Check("R2", key, e.store.Pos(), pathOK && newOK, "the change for "+sideName(side)+" targets `path` and installs the other side's synchronizable content", fmt.Sprintf("Path=%v New=%s", pathOK, newR))
-		}
-		// R6.
-		if pathAtomEq(hp.path, twoWaySafe, true) {
-			onlyConflict := len(hp.emits) == 1 && hp.emits[0].list == "conflicts"
-			c.Check("R6", "two-way-safe-both-modified", bidi.Pos(), onlyConflict, "where the handler tests for two-way-safe mode (both sides have non-deletion changes) it only records a conflict", fmt.Sprintf("%d emission(s)", len(hp.emits)))
-		}
-	}
-	if nAlpha < 3 || nBeta < 4 {
-		c.Problem("R1", "expected ≥3 alpha and ≥4 beta overwrite paths in the bidirectional handler, found %d/%d", nAlpha, nBeta)
-	}
-	c.Floor("R1", 7)
-	c.Floor("R2", 7)
-	c.Floor("R6", 1)
+	c01Planner(c, "R1", "R2", "R6")
 
 	// R3: dispatch.
 	if rec := c.MustFunc("R3", corePkg, "reconciler.reconcile"); rec != nil {
@@ -336,4 +272,77 @@ func isIndexOfResults(v ssa.Value, idx string) bool {
 	}
 	// The indexed slice must be (a local holding) the Transition call's results.
 	return strings.Contains(eng.Render(ia.X), "Transition(") || strings.Contains(strings.ToLower(eng.Render(ia.X)), "results")
+}
+
+// c01Planner decides the overwrite guard (r1), the planned literal (r2) and the
+// two-way-safe conflict rule (r6) of the bidirectional handler. Shared with C04:
+// a cycle is a fixpoint only if what is planned for a side is the OTHER side's
+// synchronizable content (a mis-wired argument that plans the unfiltered subtree
+// makes the ancestor absorb unsynchronizable entries).
+func c01Planner(c *eng.Ctx, r1, r2, r6 string) {
+	bidi := c.MustFunc(r1, corePkg, "reconciler.handleDisagreementBidirectional")
+	if bidi == nil {
+		return
+	}
+	twoWaySafe := modeAtom(c, "TwoWaySafe")
+	sites := distinctEmitSites(bidi)
+	hps := handlerPaths(c, r1, bidi)
+	nAlpha, nBeta := 0, 0
+	for _, hp := range hps {
+		for _, e := range hp.emits {
+			var side, other string
+			switch e.list {
+			case "alphaChanges":
+				side, other = rAlpha, rBeta
+				nAlpha++
+			case "betaChanges":
+				side, other = rBeta, rAlpha
+				nBeta++
+			default:
+				continue
+			}
+			key := emitKey(bidi, sites[e.store], e)
+			d := sideDiff(side)
+			unmodified := lenZeroAtom(hp.path, d, true)
+			deletionOnly := lenZeroAtom(hp.path, rND(d), true)
+			modeEscape := side == rBeta && pathAtomEq(hp.path, twoWaySafe, false)
+			c.Check(r1, key, e.store.Pos(), unmodified || deletionOnly || modeEscape,
+				"a change that overwrites "+sideName(side)+" is planned only if "+sideName(side)+" is unmodified or deletion-only since the ancestor (or, for beta, the mode is not two-way-safe)",
+				"path facts: "+atomsOf(hp.path))
+			// R2: the literal.
+			if e.fields == nil {
+				c.Check(r2, key, e.store.Pos(), false, "the planned change is a literal that can be inspected")
+				continue
+			}
+			pathOK := e.fields["Path"] != nil && eng.Render(e.fields["Path"]) == "p1"
+			newR := "nil"
+			if e.fields["New"] != nil {
+				newR = eng.Render(e.fields["New"])
+			}
+			newOK := newR == rSyn(other)
+			if newR == "nil" {
+				// propagating a deletion: the other side's synchronizable content is nil on this path.
+				newOK = pathAtomEq(hp.path, "("+rSyn(other)+" == nil)", true)
+				// Both sides deletion-only: one side is nil and the other a pure
+				// subtree of the ancestor (the handler's documented invariant), so
+				// on the branch where this side is non-nil the other is nil.
+				if !newOK && lenZeroAtom(hp.path, rND(sideDiff(side)), true) && lenZeroAtom(hp.path, rND(sideDiff(other)), true) &&
+					pathAtomEq(hp.path, "("+rSyn(other)+" == nil)", false) == false && pathAtomEq(hp.path, "("+rSyn(side)+" == nil)", false) {
+					newOK = true
+				}
+			}
+			c.Check(r2, key, e.store.Pos(), pathOK && newOK, "the change for "+sideName(side)+" targets `path` and installs the other side's synchronizable content", fmt.Sprintf("Path=%v New=%s", pathOK, newR))
+		}
+		// R6.
+		if pathAtomEq(hp.path, twoWaySafe, true) {
+			onlyConflict := len(hp.emits) == 1 && hp.emits[0].list == "conflicts"
+			c.Check(r6, "two-way-safe-both-modified", bidi.Pos(), onlyConflict, "where the handler tests for two-way-safe mode (both sides have non-deletion changes) it only records a conflict", fmt.Sprintf("%d emission(s)", len(hp.emits)))
+		}
+	}
+	if nAlpha < 3 || nBeta < 4 {
+		c.Problem(r1, "expected ≥3 alpha and ≥4 beta overwrite paths in the bidirectional handler, found %d/%d", nAlpha, nBeta)
+	}
+	c.Floor(r1, 7)
+	c.Floor(r2, 7)
+	c.Floor(r6, 1)
 }
